@@ -1,3 +1,4 @@
+import Sparrow.Proofs.LegKernelEquiv
 import Sparrow.Proofs.BakeKernelEquiv
 import Sparrow.Proofs.PipelineEnergy
 import Sparrow.Proofs.Batch2
@@ -122,3 +123,26 @@ theorem addDirectional_eq (P D nIn B W T : Nat) (energy_0 : Nat → Nat → ℝ)
   Sparrow.addDirectional_eq P D nIn B W T energy_0 src pc wall sources receivers scat sidx vis F area att s0 s1 s2 s3 s4 s5 i d b hi
 
 end Sparrow.Props.C10.BakeKernels
+
+namespace Sparrow.Props.C10.SourceLeg
+open Sparrow Sparrow.Generated.LegKernels
+
+/-- **air attenuation on the source leg** (C10): with attenuation `m` the energy of every patch and band is
+    `exp(-m_b · d_j)` times the energy without attenuation, `d_j` being the distance the kernel itself returns. -/
+theorem source2patch_attenuation (pt : (Nat → ℝ) → (Nat → Nat → ℝ) → ℝ) (P B : Nat) (src : Nat → ℝ)
+    (pc : Nat → Nat → ℝ) (pp : Nat → Nat → Nat → ℝ) (vis : Nat → Bool) (m : Nat → ℝ)
+    (s0 s1 s2 s3 s4 : Nat) (j b : Nat) (hj : j < P) :
+    (source2patchEnergyUniversal pt 3 src P 3 pc s0 s1 s2 pp s3 vis s4 (some m) B).1 j b =
+      Real.exp (-(m b) * (source2patchEnergyUniversal pt 3 src P 3 pc s0 s1 s2 pp s3 vis s4 (some m) B).2 j) *
+        (source2patchEnergyUniversal pt 3 src P 3 pc s0 s1 s2 pp s3 vis s4 none B).1 j b :=
+  Sparrow.source2patch_attenuation pt P B src pc pp vis m s0 s1 s2 s3 s4 j b hj
+
+/-- the attenuated energy never exceeds the unattenuated one when `m ≥ 0` and the point factor is non-negative -/
+theorem source2patch_att_le (pt : (Nat → ℝ) → (Nat → Nat → ℝ) → ℝ) (P B : Nat) (src : Nat → ℝ)
+    (pc : Nat → Nat → ℝ) (pp : Nat → Nat → Nat → ℝ) (vis : Nat → Bool) (m : Nat → ℝ)
+    (s0 s1 s2 s3 s4 : Nat) (j b : Nat) (hj : j < P) (hm : 0 ≤ m b) (hpt : 0 ≤ pt src (fun v q => pp j v q)) :
+    (source2patchEnergyUniversal pt 3 src P 3 pc s0 s1 s2 pp s3 vis s4 (some m) B).1 j b ≤
+      (source2patchEnergyUniversal pt 3 src P 3 pc s0 s1 s2 pp s3 vis s4 none B).1 j b :=
+  Sparrow.source2patch_att_le pt P B src pc pp vis m s0 s1 s2 s3 s4 j b hj hm hpt
+
+end Sparrow.Props.C10.SourceLeg
